@@ -146,7 +146,7 @@ fn run(cfg: &RunCfg, rep: &mut Report) {
             let mut m = model(words, *ds, *db, *dr, env.clone());
             m.inits = m.inits.into_iter().enumerate().filter(|(i, _)| cfg.mine(*i as u64)).map(|(_, x)| x).collect();
             if !m.inits.is_empty() {
-                search(m, 2, rep, 2);
+                search(m, if cfg.tier == Tier::Thorough { 6 } else { 2 }, rep, 2);
             }
         }
     }
